@@ -128,6 +128,9 @@ func runMap(seed int64, r *rand.Rand, stay int, replay []uint8, useContainer boo
 			if op == "insert" || op == "set" {
 				in.Val = nextVal
 				nextVal++
+				if !useContainer && r.Intn(5) == 0 {
+					in.Val = 0 // stands for the nil interface value: an entry like any other
+				}
 			}
 			plans[t] = append(plans[t], planned{in})
 			total++
@@ -195,13 +198,21 @@ func runMap(seed int64, r *rand.Rand, stay int, replay []uint8, useContainer boo
 					case "get":
 						v, ok := mm.Get(in.Key)
 						out.Ok = ok
-						if ok {
+						if ok && v != nil {
 							out.Val = v.(int64)
 						}
 					case "insert":
-						out.Ok = mm.Insert(in.Key, in.Val)
+						if in.Val == 0 {
+							out.Ok = mm.Insert(in.Key, nil)
+						} else {
+							out.Ok = mm.Insert(in.Key, in.Val)
+						}
 					case "set":
-						mm.Set(in.Key, in.Val)
+						if in.Val == 0 {
+							mm.Set(in.Key, nil)
+						} else {
+							mm.Set(in.Key, in.Val)
+						}
 					case "remove":
 						mm.Remove(in.Key)
 					case "len":
@@ -219,7 +230,11 @@ func runMap(seed int64, r *rand.Rand, stay int, replay []uint8, useContainer boo
 						vs := mm.Values()
 						l := make([]string, 0, len(vs))
 						for _, v := range vs {
-							l = append(l, fmt.Sprint(v.(int64)))
+							if v == nil {
+								l = append(l, "0")
+							} else {
+								l = append(l, fmt.Sprint(v.(int64)))
+							}
 						}
 						sort.Strings(l)
 						out.List = strings.Join(l, ",")
